@@ -168,12 +168,14 @@ def main():
     hdr = ("(* GENERATED by /verif/gen/extract.py from /repo's working tree on every run. Do not edit. *)\n"
            "From Coq Require Import List ZArith Arith Bool Strings.Byte.\nFrom WH Require Import lib.Layout.\nImport ListNotations.\nOpen Scope Z_scope.\n\n")
     out = hdr + "\n".join(chunks)
-    path = os.path.join(VERIF, "coq", "gen", "Extracted.v")
+    coqdir = os.environ.get("VERIF_COQ") or os.path.join(VERIF, "coq")
+    path = os.path.join(coqdir, "gen", "Extracted.v")
     os.makedirs(os.path.dirname(path), exist_ok=True)
     old = open(path).read() if os.path.exists(path) else None
     if old != out:
         open(path, "w").write(out)
-    json.dump(status, open(os.path.join(VERIF, "build", "extract_status.json"), "w"), indent=1)
+    os.makedirs(os.path.join(VERIF, "build"), exist_ok=True)
+    json.dump(status, open(os.path.join(os.path.dirname(coqdir) if os.environ.get("VERIF_COQ") else os.path.join(VERIF, "build"), "extract_status.json"), "w"), indent=1)
     return status
 
 if __name__ == "__main__":
